@@ -45,7 +45,7 @@ CHECKS["C15"] = dict(cat="exploration", engine="txn",
 CHECKS["C16"] = dict(cat="fault_enumeration", engine="wire",
    technique="fault-injecting JSON-RPC proxy cutting the connection at every message boundary of a recorded fault-free session (both directions, between and inside messages) + cache-vs-database comparison after a barrier + exactly-once marker audit; race detector on",
    text="A library client with reconnect (back-off 10 ms) talks to a library server through a proxy that frames JSON messages; a second writer is connected directly. For each session shape (1-3 monitors, every monitor method, client transactions, writer transactions before/during/after the outage) a fault-free run gives the message count per direction; then the session is re-run once per boundary and direction with a cut after message k and a cut inside message k, plus double cuts, refused connection attempts, black holes that only the inactivity probe can detect, and 'cut + window' sessions in which the direct writer commits a transaction at every client.monitor.reply pause point (monitor reply received, not yet applied), also during the monitor restarts of a reconnect. After the faults the client must be connected again (bounded progress, no wall-clock verdict: a session that does not recover is reported with the proxy log), then a barrier transaction by the direct writer is awaited and the cache must equal the database on every monitored table and column of every monitor; each client Transact writes a unique marker: results => stored exactly once, error => at most once. Race reports with a libovsdb frame are violations.",
-   note="The built-in server always answers monitor_cond_since with found=false, so the found=true branch is not reachable. Leader-only mode: two servers with a _Server database and different contents stand for two cluster members; the leader flag is moved between them in seven scenarios (flip in both orders, a period without leader, cut before/after the flip, there and back, new leader refusing connections) x endpoint order x 1-2 monitors; afterwards the client must be attached to the member reporting leader=true and mirror ITS database (counter sessions.leader).", ref="4/C16")
+   note="Last transaction id known to the server: the built-in server always answers found=false, so these sessions run the client against a history-keeping OVSDB server written for the harness (update3 notifications with ids; monitor_cond_since answered found=true with the changes since a known id, found=false after it was told to forget): 1-3 monitors mixing monitor_cond_since and monitor_cond, 1-2 outages with changes and deletes while away (counters history.*). Leader-only mode: two servers with a _Server database and different contents stand for two cluster members; the leader flag is moved between them in seven scenarios (flip in both orders, a period without leader, cut before/after the flip, there and back, new leader refusing connections) x endpoint order x 1-2 monitors; afterwards the client must be attached to the member reporting leader=true and mirror ITS database (counter sessions.leader).", ref="4/C16")
 
 CHECKS["C17"] = dict(cat="exploration", engine="wire",
    technique="offline checkers over histories recorded at the client boundary: serial replay in the order the monitors were notified (reference model), real-time order, porcupine v1.3.0 linearizability per key, monitor replay = database, conservation; server pause point between notify and commit; race detector on",
